@@ -161,7 +161,7 @@ def proof_gate(prop, pins_file=None):
         if "Closed under the global context" in o1:
             ax = []
         else:
-            ax = re.findall(r"^([\w.']+)\s*:", o1[o1.find("Axioms:"):], flags=re.M) if "Axioms:" in o1 else None
+            ax = re.findall(r"^([\w.']+)\s*:", o1[o1.find("Axioms:") + len("Axioms:"):], flags=re.M) if "Axioms:" in o1 else None
         if ax is None:
             res["failures"].append("theorem %s: cannot read Print Assumptions output" % name)
             continue
